@@ -91,6 +91,7 @@ def one_load(data, flag, mode, fail_at=None, chunk_fail=None, flag_how="assign")
     from rv.readers.reader import read_sunvox_file
 
     problems = []
+    in_handler = [None]
     E.RAISE_CONTROLLER_VALUE_ERRORS = flag
     outer = None
     if flag_how == "context":
@@ -124,6 +125,7 @@ def one_load(data, flag, mode, fail_at=None, chunk_fail=None, flag_how="assign")
                 outcome = "returned"
             except BaseException as e:
                 outcome = "raised:" + type(e).__name__
+                in_handler[0] = E.RAISE_CONTROLLER_VALUE_ERRORS      # observed WHILE the exception (and its traceback) is alive
             finally:
                 _remove_seams()
                 _serve.pop(name, None)
@@ -146,6 +148,7 @@ def one_load(data, flag, mode, fail_at=None, chunk_fail=None, flag_how="assign")
                 outcome = "returned"
             except BaseException as e:
                 outcome = "raised:" + type(e).__name__
+                in_handler[0] = E.RAISE_CONTROLLER_VALUE_ERRORS      # observed WHILE the exception (and its traceback) is alive
             finally:
                 _remove_seams()
                 _serve.pop(name, None)
@@ -161,11 +164,17 @@ def one_load(data, flag, mode, fail_at=None, chunk_fail=None, flag_how="assign")
                 outcome = "returned"
             except BaseException as e:
                 outcome = "raised:" + type(e).__name__
+                in_handler[0] = E.RAISE_CONTROLLER_VALUE_ERRORS      # observed WHILE the exception (and its traceback) is alive
             if handle.closed:
                 problems.append(("caller-file-closed-by-library", {"outcome": outcome}))
     finally:
         iff.Chunk = real_chunk
     after = E.RAISE_CONTROLLER_VALUE_ERRORS
+    expected_now = flag          # also inside the caller's own override block (flag_how == "context")
+    if in_handler[0] is not None and in_handler[0] is not expected_now:
+        # the restore must have happened BEFORE the exception reaches the caller, not when the traceback is collected
+        problems.append(("strictness-flag-not-restored-when-exception-reaches-caller",
+                         {"expected": expected_now, "in_handler": in_handler[0], "outcome": outcome, "flag_how": flag_how}))
     if after is not flag:
         problems.append(("strictness-flag-not-restored", {"before": flag, "after": after, "outcome": outcome, "flag_how": flag_how}))
     if outer is not None:
